@@ -4,7 +4,7 @@
 ID = "C13"
 HARNESSES = [dict(name="configmgr", pkg="./pkg/configmgr/", test="TestVerifC13", timeout=900,
                   files=[("pkg/configmgr/zz_verif_c13_test.go", "harness/C13/zz_verif_c13_test.go")])]
-VARIANTS = ["repaired", "defective"]
+VARIANTS = ["repaired", "set_defect", "persist_defect", "defective"]
 RULE = ("One case = one history against a fresh ConfigManager: a registry of 2-7 recording handlers on real path "
         "patterns (scalar leaves of interfaces/vrfs/protocols/aaa, _internal no-op paths, a literal pattern shadowing "
         "a wildcard one) with generated dependency lists (chains, forward references, self-dependencies, cycles, "
@@ -356,6 +356,8 @@ def signature(case, impl, models):
         res, tr, d = parse_step(steps(impl)[i])
     except Exception:
         return "unclassified"
+    if o[0] == "s" and res == "setfail" and "C" in d:
+        return "failed-set-leaves-containers"
     if o[0] == "m":
         flags = o[2].split(":")[1]
         if "s" in flags and res == "startupsave":
